@@ -72,7 +72,7 @@ func genTreeCase(depth bool) func(t *rapid.T) TreeCase {
 			c.Ops = rapid.SliceOfN(genOp(opKindsDepth), 0, 40).Draw(t, "ops")
 		} else {
 			c.Init = rapid.SliceOfN(rapid.IntRange(0, 47), 0, 30).Draw(t, "init")
-			c.Ops = rapid.SliceOfN(genOp(opKindsModel), 0, 60).Draw(t, "ops")
+			c.Ops = rapid.SliceOfN(genOp(opKindsModel), 0, vk.MaxOps(t, 60, 400)).Draw(t, "ops")
 		}
 		// Construction instead of rejection: most cases get the shapes the
 		// non-triviality rule asks for spliced in at drawn positions.
